@@ -102,5 +102,7 @@ def run(chk: Check) -> None:
     _capture(sub, lt)
     _get(sub, lt)
     chk.adopt(sub)
+    from .bounds import range_helpers
+    range_helpers(chk, "R05.7")
     on_impl(chk, "R05.7")
     at_impl(chk, "R05.7")
